@@ -35,6 +35,9 @@ enum Act {
     InputsB,
     Fees,
     CompilerOps,
+    /// the compiler-op walk run although some built-in's operand is not there yet: it may refuse, or leave that
+    /// built-in for later - what it may not do is evaluate it to something (the stage stays to be run)
+    CompilerOpsEarly,
     Reduce,
 }
 
@@ -57,6 +60,7 @@ fn bit(a: Act) -> u8 {
         Act::InputsB => 16,
         Act::Fees => 4,
         Act::CompilerOps => 8,
+        Act::CompilerOpsEarly => 0,
         Act::Reduce => 0,
     }
 }
@@ -106,7 +110,7 @@ fn step(tx: tir::Tx, a: Act, env: &Env) -> Result<tir::Tx, String> {
         Act::InputsA => tx.apply_inputs(&env.inputs_a).map_err(|e| e.to_string()),
         Act::InputsB => tx.apply_inputs(&env.inputs_b).map_err(|e| e.to_string()),
         Act::Fees => tx.apply_fees(env.fee).map_err(|e| e.to_string()),
-        Act::CompilerOps => {
+        Act::CompilerOps | Act::CompilerOpsEarly => {
             let mut c = compiler(&PP::default());
             tx.apply(&mut c).map_err(|e| e.to_string())
         }
@@ -218,6 +222,10 @@ fn run_template(tx: &tir::Tx, label: &str, o: &mut Outcome, detail: &Value) {
                 continue;
             }
             if a == Act::CompilerOps && !compiler_operands_available(&json_now) {
+                // once per state at most, and not straight after itself
+                if s.path.last() != Some(&Act::CompilerOpsEarly) {
+                    acts.push(Act::CompilerOpsEarly);
+                }
                 continue;
             }
             acts.push(a);
@@ -229,6 +237,10 @@ fn run_template(tx: &tir::Tx, label: &str, o: &mut Outcome, detail: &Value) {
             transitions += 1;
             o.evals += 1;
             let next_tx = step(cur.clone(), a, &env);
+            if a == Act::CompilerOpsEarly && next_tx.is_err() {
+                // refused: outside the orders the property speaks about
+                continue;
+            }
             let mut path = s.path.clone();
             path.push(a);
             let n = St { tx: next_tx, applied: s.applied | bit(a), last_reduce: a == Act::Reduce, path };
@@ -276,7 +288,7 @@ fn run_template(tx: &tir::Tx, label: &str, o: &mut Outcome, detail: &Value) {
             );
         }
     } else {
-        o.class("every-schedule-fails");
+        o.class(format!("every-schedule-fails:{label}"));
         // all failing: they should at least fail alike? not required by the property
     }
     let _ = unresolved(tx);
@@ -316,7 +328,7 @@ impl Prop for C07 {
     fn rule(&self, _tier: Tier) -> String {
         "explicit-state search per template: states = (canonical TIR, applied stage set, last action was Reduce); transitions = the real apply_args / \
          apply_inputs / apply_fees / Node::apply(compiler) / reduce; ApplyCompilerOps is enabled iff a generic walk finds no ExpectValue / ExpectInput / \
-         ExpectFees below any EvalCompiler node; the graph holds all 24 stage orders x all reduce placements (depth <= 9). Checked: every terminal \
+         ExpectFees below any EvalCompiler node (run earlier it may refuse or leave the built-in in place, and the stage stays to be run: a schedule in which it answered goes on and has to end like the others); the graph holds all 24 stage orders x all reduce placements (depth <= 9). Checked: every terminal \
          state (all four stages + final reduce) holds no parameter, query, fee or compiler built-in any more and is the same canonical template and no schedule fails if one succeeds; reduce(reduce(s)) = reduce(s) in \
          every state. Templates: every tx of the corpus, 5 bases giving each compiler built-in a literal / parameter / env / local operand, and every \
          tirgen tree of depth <= 1 around a parameter / fees / query / tip_slot probe."
